@@ -222,6 +222,7 @@ class BaseFileLock(abc.ABC):
         if not self.is_locked:
             return
 
+        depth = self._lock_counter
         self._decrement_lock_counter()
 
         if self._lock_counter == 0 or force:
@@ -238,7 +239,9 @@ class BaseFileLock(abc.ABC):
                 _logger.info('Lock %s released on %s', lid, fn)
 
         try:
-            self._thread_lock.release()
+            # A forced release gives up every level of a reentrant lock
+            for _ in range(max(depth, 1) if force else 1):
+                self._thread_lock.release()
         except RuntimeError:  # not reentrant and already unlocked
             pass
 
